@@ -64,10 +64,15 @@ LENGTHS = {
     "<ch>": ["x", "y"],
 }
 
+RECSTART_R = {"<start>": ["a<start>", "b"]}
+RECSTART_L = {"<start>": ["<start>a", "b", ""]}
+RECSTART_M = {"<start>": ["(<start>)<start>", "<A>"], "<A>": ["x", ""]}
+
 GRAMMARS = {
     "ASSGN": ASSGN, "ASSGN2": ASSGN2, "XMLISH": XMLISH, "NUM": NUM, "NULLABLE": NULLABLE,
     "AMBIG": AMBIG, "LEFTREC": LEFTREC, "RIGHTREC": RIGHTREC, "MULTICHAR": MULTICHAR,
     "CSVISH": CSVISH, "TWOSTART": TWOSTART, "LENGTHS": LENGTHS,
+    "RECSTART_R": RECSTART_R, "RECSTART_L": RECSTART_L, "RECSTART_M": RECSTART_M,
 }
 
 
@@ -109,6 +114,8 @@ def hand_formulas(name):
         add("nested-in", FA("<stmt>", "s", FA("<assgn>", "a", EX("<var>", "v", PRED("inside", "v", "s"), inn="a"), inn="s")))
         add("same-pos", FA("<assgn>", "a", FA("<assgn>", "b", OR(PRED("same_position", "a", "b"), NOT(SMT(A("=", V("a"), V("b"))))))))
         add("count", COUNT("start", "<assgn>", 2))
+        add("count", COUNT("start", "<stmt>", 2))
+        add("count", FA("<stmt>", "s", OR(COUNT("s", "<stmt>", 1), COUNT("s", "<stmt>", 3), lit("s", "a := b ; a := a"))))
         add("count", FA("<stmt>", "s", OR(COUNT("s", "<var>", 1), COUNT("s", "<var>", 2), NOT(SMT(A("<", A("str.len", V("s")), I(7)))))))
         add("numeric", EXI("n", AND(COUNT("start", "<var>", "n"), COUNT("start", "<assgn>", "n"))))
         add("numeric", FAI("n", OR(NOT(COUNT("start", "<digit>", "n")), SMT(A("<=", A("str.to.int", V("n")), I(1))))))
@@ -117,6 +124,15 @@ def hand_formulas(name):
         add("conj-exists-forall", AND(EX("<var>", "k", lit("k", "a")), FA("<digit>", "d", lit("d", "1"))))
         add("conj-exists-forall", AND(EX("<assgn>", "x", lit("l", "b"), mexpr=M(MNT("<var>", "l"), MCH(" := "), MNT("<rhs>"))),
                                       FA("<rhs>", "r", SMT(A("=", A("str.len", V("r")), I(1)))), FA("<digit>", "d", NOT(lit("d", "0")))))
+        # absorption / complementary-literal shapes over structural predicates (they stay NegatedFormula objects)
+        P_, Q_ = PRED("before", "a1", "a2"), PRED("same_position", "a1", "a2")
+        R_ = SMT(A("=", V("a1"), V("a2")))
+        for k, body in enumerate([OR(AND(P_, Q_), NOT(P_)), OR(NOT(P_), AND(Q_, P_)), AND(OR(P_, Q_), NOT(P_)), AND(NOT(Q_), OR(P_, Q_)),
+                                  OR(AND(P_, R_), NOT(P_)), AND(OR(Q_, R_), NOT(Q_)), OR(AND(NOT(P_), R_), P_), AND(OR(NOT(P_), Q_), P_)]):
+            add("absorption", FA("<assgn>", "a1", FA("<assgn>", "a2", body)))
+        add("rename-capture", AND(EX("<var>", "v", lit("v", "a")),
+                                  FA("<var>", "v", EX("<assgn>", "s", EX("<var>", "v_0", AND(SMT(A("=", V("v"), V("v_0"))), PRED("different_position", "v", "v_0")), inn="s")))))
+        add("rename-capture", AND(FA("<var>", "x", NOT(lit("x", "c"))), EX("<var>", "x", FA("<stmt>", "s", FA("<var>", "x_0", OR(SMT(A("=", V("x"), V("x_0"))), PRED("before", "x", "x_0")), inn="s")))))
         add("vacuous-body", FA("<digit>", "d", FALSE))
         add("vacuous-body", EX("<digit>", "d", TRUE))
         add("vacuous-body", FA("<digit>", "d", SMT(A("=", I(1), I(2)))))
